@@ -42,9 +42,10 @@ CLAIMED = {
               '(only SchemaError and DocumentError leave __init_processing; a non-mapping document raises DocumentError), '
               'C03_coercer_caught / C03_setter_caught (exceptions of user coercers, rename handlers and default setters become errors), '
               'and for the rule handlers C03_allowed, C03_forbidden, C03_min, C03_max, C03_length, C03_regex, C03_items, C03_keysrules, '
-              'C03_valuesrules, C03_nullable, C03_readonly, C03_empty, C03_check_with, C03_lookup: no Python exception for *any* value, '
+              'C03_valuesrules, C03_nullable, C03_readonly, C03_empty, C03_check_with, C03_lookup, C03_contains, C03_dependencies (dependency names '
+              'are strings, paths through values of any shape): no Python exception for *any* value, '
               'under a guard on the constraint that is what the rule\'s constraint schema demands. Partial: the composition over all '
-              'nested rule sets of an accepted schema (needs the C04 well-formedness predicate) and the handlers contains / dependencies / '
+              'nested rule sets of an accepted schema (needs the C04 well-formedness predicate) and the handlers '
               'excludes / schema / *of are decided by the ports (model and code must agree on raising) and the no-raise oracle on '
               'wrong-shape streams.'),
         note=COMMON_NOTE + 'Totality of the model is only as complete as the placement of partial operations in it; the ports check that placement against the code.',
@@ -153,14 +154,16 @@ CLAIMED = {
         note=COMMON_NOTE + 'Resolution of *nested* paths through the whole document/schema is decided by the oracle; the theorems cover the per-level construction.',
         design='§6 C12'),
     'C13': dict(
-        technique='Lean 4 proof (message-count invariants of the rendering model) + correspondence of the Render model on the real recorded errors',
+        technique='Lean 4 proof (message-count and top-level-key invariants of the rendering model) + correspondence of the Render model on the real recorded errors',
         text=('Theorems C13_count / C13_count_flatten (exactly one message per non-group error and per *of error: nothing dropped, '
-              'nothing duplicated), C13_empty (empty iff no errors), C13_messages and C13_codes (on the extracted message/definition '
+              'nothing duplicated), C13_empty (empty iff no errors), C13_keys / C13_keys_all (the top-level keys are exactly the first '
+              'document-path elements of the recorded errors that yield a message; Proofs/RenderKeys.lean: path rewriting keeps the first '
+              'element through every *of / group level), C13_messages and C13_codes (on the extracted message/definition '
               'tables) hold for every error forest of the Lean model of BasicErrorHandler (path rewriting for group and *of errors, '
               'insertion, purge). The model is tied to errors.py by rendering the real recorded errors of generated validations '
-              'with both and comparing trees (messages abstracted to error tags). Purity, key set and list shape are decided by the '
+              'with both and comparing trees (messages abstracted to error tags). Purity and list shape are decided by the '
               'port and the direct oracle on the real objects (stated as such; no theorem is claimed for Python-level mutation).'),
-        note=COMMON_NOTE + 'Message texts are not modelled (tags instead); the key-set clause has no theorem yet (port + oracle only).',
+        note=COMMON_NOTE + 'Message texts are not modelled (tags instead).',
         design='§6 C13'),
     'C14': dict(
         technique='Lean 4 proof (resolved-view theorem: validation depends on a schema only through its dereferenced field mapping; use-site lemmas; kernel-evaluated recursion) + inline-vs-referenced oracle + correspondence with registries',
@@ -203,13 +206,17 @@ CLAIMED = {
         note=COMMON_NOTE + 'Extra configuration arguments are modelled as part of the environment (closures), not as a field copied by Ctx.child.',
         design='§6 C16'),
     'C17': dict(
-        technique='Lean 4 proof (termination measure over the rotation streak, accounting invariant) + correspondence of the work-list model + least-fixpoint oracle',
+        technique='Lean 4 proof (termination measure over the rotation streak; least fixpoint and order independence for dependency setters via a rotation/no-duplicate argument on the known-states check) + correspondence of the work-list model + least-fixpoint oracle',
         text=('C17_terminates: for every setter family, pending list and mapping the work list stops within n(n+3)/2 iterations; '
               'C17_total: every pending field ends with a value or a "default cannot be set" error; C17_other_exc / C17_keyerror_requeues: '
-              'another exception touches its own field only. The least-fixpoint / order-independence clause is partial (C17_lfp_partial): '
-              'it is decided by the port (model vs real normalization) and an independent least-fixpoint oracle, exhaustively for all '
-              'dependency graphs on <= 3 fields x present-subsets x orders in the thorough tier, randomly up to 6 fields.'),
-        note=COMMON_NOTE + 'Setters are modelled by their result class (value / KeyError / other exception).',
+              'another exception touches its own field only. C17_lfp: for setters that read other fields (deps looked up, missing -> KeyError) '
+              'and any list of distinct pending fields, exactly the obtainable fields (inductive least fixpoint `Reach`) receive a value and '
+              'exactly the others the error; C17_order_independent: two orders of the same pending fields resolve and fail the same sets '
+              '(Proofs/SettersLfp.lean: the cycle check can only fire after the run of KeyErrors went once around the pending tuple). '
+              'That the computed values do not depend on the order is decided by the port (model vs real normalization) and the independent '
+              'least-fixpoint oracle, exhaustively for all dependency graphs on <= 3 fields x present-subsets x orders in the thorough tier, '
+              'randomly up to 6 fields.'),
+        note=COMMON_NOTE + 'Setters are modelled by their result class (value / KeyError / other exception); the fixpoint theorem is for setters whose KeyError is exactly a missing dependency.',
         design='§6 C17'),
     'C18': dict(
         technique='Lean 4 proof, partial (schedule independence of the shared-state machine for every interleaving of its atomic actions; negations at the pre-repair atomicity) + correspondence of the machine with real shared histories + deterministic line-level scheduler and stress search on real threads',
